@@ -24,6 +24,22 @@ fn main() {
         let msg = info.to_string();
         if !msg.contains("verif: schedule aborted") && std::env::var("HARNESS_VERBOSE").is_ok() { eprintln!("{msg}"); }
     }));
+    // watchdog: a grant of the baton scheduler that does not return for 20 s (never seen on purpose; a rare stall of the driver /
+    // worker hand-over was observed once in ~10^4 cases) ends the process; the Python driver re-runs the case in a fresh process
+    std::thread::spawn(|| {
+        use std::sync::atomic::Ordering::SeqCst;
+        let mut last = (0u64, std::time::Instant::now());
+        loop {
+            std::thread::sleep(std::time::Duration::from_millis(500));
+            let p = sched::PROGRESS.load(SeqCst);
+            if p != last.0 || !sched::IN_SCHEDULE.load(SeqCst) { last = (p, std::time::Instant::now()); continue }
+            if last.1.elapsed() > std::time::Duration::from_secs(20) {
+                println!("-9999");
+                let _ = std::io::stdout().flush();
+                std::process::exit(77);
+            }
+        }
+    });
     let stdin = std::io::stdin();
     let stdout = std::io::stdout();
     let mut out = stdout.lock();
